@@ -503,6 +503,11 @@ func (handler *Handler) handleStatementExecute(ctx context.Context, packet *Pack
 
 		var err error
 		var queryObj = handler.protocolState.PendingParse()
+		if queryObj == nil {
+			// nothing has been prepared on this connection: the database answers the packet
+			log.Error("No prepared statement to execute")
+			return 0, nil
+		}
 
 		statement, err = queryObj.Statement()
 		if err != nil {
